@@ -32,7 +32,8 @@ ProgClauses ==
       pr == PrepRun(PrepInit, ops, 1, <<>>)
   IN
   IF pr.p.err THEN When(E.eerr = "" \/ E.epanic, "encode_outcome")                   \* nil non-nullable array must be refused
-  ELSE IF E.eerr # "" THEN V("encode_outcome")
+  ELSE IF E.eerr # "" THEN V("encode_outcome")   \* e.g. the writing pass ran out of the buffer the sizing pass allocated
+                           \cup When(Len(E.prep) = n /\ \E i \in 1..n : E.prep[i] # pr.plens[i], "sizing_pass_length")
   ELSE IF Len(E.prep) # n \/ Len(E.real) # n \/ Len(E.wr) # n \/ Len(E.crc) # n THEN V("encode_outcome")
   ELSE
    LET rr == RealRun(RealInit(pr.p.len), ops, pr.p.lens, 1, <<>>, <<>>)
